@@ -9,7 +9,7 @@
    of the Go memory model; what is proved is the absence of conflicting unsynchronised accesses in
    that table - the race detector run of the harness is the schedule search (design/C18.md). *)
 From Coq Require Import List String Bool Arith.
-From Storage Require Import Db.Mvcc Db.MvccProofs Db.Access Db.AccessProofs.
+From Storage Require Import Db.Mvcc Db.MvccProofs Db.Access Db.AccessProofs Db.Workload Db.WorkloadProofs.
 Import ListNotations.
 
 (* Every read transaction observes exactly one committed state: each answer is the evaluation of
@@ -52,3 +52,12 @@ Theorem no_conflict_means_reads_only : forall t, no_conflict t = true ->
     a_kind a = ARead /\ a_kind b = ARead.
 Proof. exact no_conflict_sound. Qed.
 Print Assumptions no_conflict_means_reads_only.
+
+(* The correspondence harness runs the same stores at several places of one database (base paths of
+   depth 0 to 3) and lets a reader address one of them per query: the serial answer it is compared
+   with is the answer of the query itself, whatever the place - so the two theorems above, taken at
+   query type [placed] with [eval_placed], speak about exactly the answers of [eval_query]. *)
+Theorem placed_answer_independent_of_place : forall (d1 d2 : nat) (q : query) (s : wstate),
+  eval_placed (d1, q) s = eval_placed (d2, q) s.
+Proof. exact eval_placed_place_irrelevant. Qed.
+Print Assumptions placed_answer_independent_of_place.
